@@ -446,6 +446,18 @@ class Run:
                     changes += 1
                     for site, msg in compare(obj, m, f"after {label}"):
                         self.violation("alternative-width", "placement:" + site, msg)
+                    # the file keeps its size whatever width the value selects, and export -> parse restores it
+                    data = obj.export()
+                    fresh = make_registers(layout)
+                    full = len(fresh.export())
+                    if len(data) != full:
+                        self.violation("alternative-width", "export-length", f"{label}: the export has {len(data)} bytes, the register file has {full}")
+                    else:
+                        # (a short value and the full-width value with the same leading bytes export to the same bytes, so
+                        # the values themselves cannot both come back; what must hold is that the bytes are stable)
+                        fresh.parse(data)
+                        if fresh.export() != data:
+                            self.violation("alternative-width", "export-parse:re-export", f"{label}: exporting the parsed twin gives different bytes")
                     # leave the group zeroed: generic operations do not predict values of alternative-width groups
                     for u in g["sub_regs"]:
                         find_reg(obj, u).set_value(0, raw=True)
